@@ -241,15 +241,35 @@ async fn script_case(ctx: &mut Ctx, case: u64, seq: &[usize], rng: &mut Rng) {
             // exactly what handle_connection does next, whatever `res` is
             let ns_seen = state.namespace();
             let outcome = state.into_outcome();
-            (res.map_err(|e| format!("{e:?}")), ns_seen, outcome.num_sent, outcome.num_recv)
+            // what the live actor needs from a failed session to attribute it: document and peer
+            let attributed = match &res {
+                Ok(_) => true,
+                Err(e) => e.namespace().is_some() && e.peer() == Some(peer_key(8)),
+            };
+            (res.map_err(|e| format!("{e:?}")), ns_seen, outcome.num_sent, if attributed { 1 } else { 0 })
         });
         play(remote, &w, seq, rng, false).await;
-        let end = finish(task, &h, ns, |(r, _, _, _)| match r {
+        let mut unattributed: Option<String> = None;
+        let allowed_init = ci == 0 && seq.first().map(|l| LETTERS[*l].starts_with("init") && LETTERS[*l] != "init-unknown-doc").unwrap_or(false);
+        let end = finish(task, &h, ns, |(r, _, _, attributed)| match r {
             Ok(_) => End::Ok,
-            Err(e) => End::Err(e),
+            Err(e) => {
+                if attributed == 0 {
+                    unattributed = Some(e.clone());
+                }
+                End::Err(e)
+            }
         })
         .await;
         ctx.count("acceptor_runs", 1);
+        // once a request was allowed, a failure of the session must still say which document and
+        // peer it was about ("the accepting side can always report its outcome")
+        if allowed_init {
+            ctx.count("allowed_sessions_checked_for_attribution", 1);
+            if let Some(e) = unattributed {
+                ctx.violation(case, "failed-accepted-session-does-not-name-document-and-peer", json!({"frames": names, "error": e}));
+            }
+        }
         judge(ctx, case, "acceptor", &names, cb, &end);
         match h.get_state(ns).await {
             Err(_) => ctx.violation(case, "store-actor-dead-after-session[acceptor]", json!({"frames": names, "accept": cb, "panic": format!("{:?}", crate::take_panic())})),
